@@ -130,6 +130,8 @@ def h_completion(c):
         kw["coef_type"] = c["coef_type"]
     if "tol" in c:
         kw["tol"] = dec(c["tol"])
+        if c.get("tol_int"):
+            kw["tol"] = int(kw["tol"])
     if c.get("seed") is not None:
         kw["seed"] = list(c["seed"])
     before = coefs.copy() if hasattr(coefs, "copy") and not isinstance(coefs, list) else list(coefs)
